@@ -19,6 +19,7 @@ let parse_op (t : string) : op =
   | 'T' -> OTimeout
   | 'X' -> ORestart
   | 'P' -> ONewPase
+  | 'E' -> ONewCase (n_of_int (Char.code t.[1] - 48))
   | kind ->
     let s = parse_sess t.[1] in
     let rest = if String.length t > 3 then split_on ':' (String.sub t 3 (String.length t - 3)) else [] in
@@ -61,8 +62,11 @@ let state_str (st : state) =
     | Armed (f, fl) -> Printf.sprintf "a%s/%s" (s_of_n f) (s_of_n (fl_bits fl)) in
   let p = match st.s_pase with
     | PAbsent -> "-" | PLive f -> "L" ^ s_of_n f | PExpired f -> "E" ^ s_of_n f in
-  Printf.sprintf "fs=%s bc=%s w=%d p=%s F[%s] N[%s] | F[%s] N[%s]"
-    fs (s_of_n st.s_bc) (if st.s_win then 1 else 0) p
+  let c = String.concat "" (List.map (fun f ->
+      match cget (n_of_int f) st.s_case with
+      | None -> "L" | Some true -> "E" | Some false -> "-") [1; 2; 3]) in
+  Printf.sprintf "fs=%s bc=%s w=%d p=%s c=%s F[%s] N[%s] | F[%s] N[%s]"
+    fs (s_of_n st.s_bc) (if st.s_win then 1 else 0) p c
     (fabrics_str st.s_fabs) (nets_str st.s_nets)
     (fabrics_str st.s_kv.k_fabs)
     (match st.s_kv.k_net with None -> "-" | Some x -> nets_str x)
@@ -131,7 +135,13 @@ let parse_state (s : string) : state =
   { s_fs = fs; s_bc = n (get "bc"); s_win = (get "w" = "1"); s_pase = p;
     s_fabs = fabs rf; s_nets = parse_nets rn;
     s_kv = { k_fabs = fabs kf; k_net = (if kn = "-" then None else Some (parse_nets kn)) };
-    s_key = N0; s_root = N0; s_nkeys = N0 }
+    s_key = N0; s_root = N0; s_nkeys = N0;
+    s_case = (let v = get "c" in
+              List.concat (List.mapi (fun i ch ->
+                match ch with
+                | 'E' -> [(n_of_int (i + 1), true)]
+                | '-' -> [(n_of_int (i + 1), false)]
+                | _ -> []) (List.init (String.length v) (String.get v)))) }
 
 let parse_status (s : string) : status =
   match s with
